@@ -140,6 +140,28 @@ def check_one(case):
             fail("edit-of-clone-changes-original", "%r -> %r" % (before_l, str(l)))
         if str(g) != before_g:
             fail("edit-of-clone-changes-gfa", harness.short(before_g, 200) + " -> " + harness.short(str(g), 200))
+        # tag-level edits of the clone: delete every tag, declare and set a new one
+        c3 = l.clone()
+        for t in list(c3.tagnames):
+            try:
+                c3.delete(t)
+            except Exception:
+                pass
+        try:
+            c3.set_datatype("zq", "i"); c3.set("zq", 12)
+        except Exception:
+            pass
+        if str(l) != before_l or str(g) != before_g:
+            fail("tag-edit-of-clone-changes-original", "%r -> %r" % (before_l, str(l)))
+        else:
+            try:
+                if rt not in ("H", "#") and not l.virtual:
+                    l.set("zq", "hello")
+                    if "zq:Z:hello" not in str(l):
+                        fail("new-tag-of-clone-leaks-into-original", str(l))
+                    l.delete("zq")
+            except gfapy.Error as e:
+                fail("new-tag-of-clone-leaks-into-original", "%s: %s" % (type(e).__name__, harness.short(e, 100)))
         g2 = gfapy.Gfa(lines, vlevel=vlevel)
         l2 = (state.registered(g2) + [g2.header])[idx]
         c2 = l2.clone()
